@@ -295,7 +295,7 @@ def run(ctx):
                 'beyond-horizon delays) is explored to the cost bound and every trace replayed on DelaySSASimulator (directly and '
                 'through py_simulate_model(delay=True)), comparing rows, draws and the drained final queue; the same through py_simulate_model(delay=True, volume=2.0) on DelayVolumeSSASimulator; and on models to which the delayed reaction was added after a first initialisation and simulation; SSASimulator and '
                 'VolumeSSASimulator are replayed against references that apply both parts at the firing time; plus the delay '
-                'samplers on a full lattice of uniforms. states = distinct (state, grid index, queue content) of the reference; '
+                'samplers on a full lattice of uniforms. The time grid is also handed over as a strided view whose gaps hold the midpoints and as a table column next to shifted times (simulator objects and entry point); the conformance oracle is unchanged. states = distinct (state, grid index, queue content) of the reference; '
                 'non-trivial = configuration with more than one distinct outcome.')
     ctx.assumptions = ['direct-method mapping as in C05; Box-Muller and Marsaglia-Tsang as the sampling algorithms',
                        'exactly representable grid steps; delays never exactly half-way between slots']
